@@ -17,7 +17,7 @@ rejected with UnknownClassException before define_class and reaches the class af
   K  (correspondence): result of every op, and the final `__dict__` of every instance (keys in order, values)
      and the link pairs, against lean/PyxModel/Attr.lean run by the driver command `(attr op…)`.
 
-Domain.  ASCII names; declared names distinct after upper-casing; association keys spelled as declared on the
+Domain.  ASCII names; association keys spelled as declared on the
 referential side.  Deletes address ANY attribute: one that holds a value (its value goes away), one that holds
 none or a referential one (D: no OTHER attribute may lose or change its value — signature
 delete-absent-removes-other-value); constructor keywords name non-referential and referential attributes in
@@ -45,8 +45,9 @@ RULE = ('(1) exhaustive: every history of length L (quick 3, thorough 4) over th
         'definition are revisited after it) and redefinition attempts under other spellings; non-trivial = some cell was written under two '
         'different spellings and read under yet another; distinct = distinct op sequence')
 EXHAUSTIVE = {'quick': True, 'thorough': True}
-ASSUMPTIONS = ['names are ASCII identifiers (str.upper on ASCII); declared attribute names of a class are distinct '
-               'after upper-casing; association keys on the referential side are spelled as declared',
+ASSUMPTIONS = ['names are ASCII identifiers (str.upper on ASCII); association keys on the referential side are spelled as '
+               'declared; a class whose attribute names coincide apart from letter case cannot exist: define_class '
+               'rejects it (generated and checked: MetaModelException, nothing defined)',
                'attribute names do not collide with Python-level attributes of xtuml.meta.Class']
 CHUNK = 6000
 CASE_TIMEOUT_S = 10
@@ -157,6 +158,10 @@ def _random_case(r, maxlen):
     ops = [['define', ka, a_attrs], ['define', kb, b_attrs]]
     if r.random() < 0.2:
         ops.append(['define', respell(r, ka), []])                      # rejected: already defined
+    if r.random() < 0.15:
+        kc = ka + kb + 'C'                                              # rejected: attribute names collide
+        ops.append(['define', kc, [['Val', 'integer'], ['vAL', 'string']]])
+        ops.append(['find', respell(r, kc)])
     if with_assoc:
         ops.append(['assoc', respell(r, kb), ref_name, respell(r, ka), respell(r, a_attrs[0][0])])
     classes = {ka.upper(): (ka, a_attrs, None), kb.upper(): (kb, b_attrs, ref_name)}
@@ -267,7 +272,8 @@ def _class_lookup_exhaustive():
     for pre_sp in sps:
         for pre_how in LOOKUPS:
             for def_sp in sps:
-                ops = [_lookup_op(pre_sp, pre_how), ['define', def_sp, [['n', 'integer']]]]
+                ops = [_lookup_op(pre_sp, pre_how), ['define', def_sp, [['n', 'integer'], ['N', 'string']]],
+                       _lookup_op(def_sp, pre_how), ['define', def_sp, [['n', 'integer']]]]
                 for sp in sps:
                     for how in LOOKUPS:
                         ops.append(_lookup_op(sp, how))
@@ -290,7 +296,11 @@ def _class_lookup_random(r):
         k = r.choice(kinds)
         K = k.upper()
         w = r.random()
-        if w < 0.22:
+        if w < 0.06 and K not in defined:
+            # attribute names that coincide apart from letter case: rejected, nothing is defined
+            ops.append(['define', respell(r, k), [['n', 'integer'], [r.choice(['N', 'n']), 'string']] if r.random() < 0.5
+                        else [['Ab', 'integer'], ['x', 'string'], ['aB', 'integer']]])
+        elif w < 0.22:
             ops.append(['define', respell(r, k), [['n', 'integer']] if K not in defined else []])
             defined.add(K)
         else:
@@ -466,14 +476,23 @@ def run_impl(case):
             if nm == 'define':
                 K = op[1].upper()
                 dup = K in orc.classes
+                unames = [a.upper() for a, _ in op[2]]
+                collide = len(set(unames)) < len(unames)      # two attribute names coincide apart from letter case
                 try:
                     m.define_class(op[1], [tuple(a) for a in op[2]])
                     if dup:
                         fail('class-redefined', 'define_class(%r) succeeded although %r exists' % (op[1], orc.classes[K]['kind']), n)
-                    orc.classes[K] = {'kind': op[1], 'attrs': [tuple(a) for a in op[2]], 'ref': None}
+                    elif collide:
+                        fail('colliding-attributes-accepted', 'define_class(%r, %r) accepted attribute names that coincide '
+                             'apart from letter case (no spelling could address one of them)' % (op[1], op[2]), n)
+                    if not dup:
+                        # (also when it was wrongly accepted: the oracle must follow the implementation to stay usable)
+                        orc.classes[K] = {'kind': op[1], 'attrs': [tuple(a) for a in op[2]], 'ref': None}
                 except x.MetaModelException:
                     res = Sym('MetaModel')
-                    if not dup:
+                    if K in m.metaclasses and not dup:
+                        fail('rejected-class-defined', 'define_class(%r) raised but left a class behind' % op[1], n)
+                    if not dup and not collide:
                         fail('class-definition-rejected', 'define_class(%r) raised although no such class exists' % op[1], n)
             elif nm == 'assoc':
                 ass = m.define_association('R1', op[1], [op[2]], True, True, '', op[3], [op[4]], False, True, '')
